@@ -31,10 +31,11 @@ type ethInv struct {
 	blockGasWanted uint64
 	// statistics
 	Included, Failed, Rejected map[string]int
-	Sums                       int
+	Sums, NonCall              int
 }
 
 var ethUntouched = []string{"evm", "assets", "delegation", "operator", "avs", "dogfood", "oracle"}
+var ethRestaking = []string{"assets", "delegation", "operator", "avs", "dogfood", "oracle"}
 
 func newEthInv() *ethInv {
 	return &ethInv{Included: map[string]int{}, Failed: map[string]int{}, Rejected: map[string]int{}}
@@ -143,7 +144,7 @@ func ethClass(x *EthAct) string {
 	t := []string{"legacy", "accesslist", "dynamic"}[x.Type%3]
 	tg := []string{"transfer", "storer", "reverter", "burner", "gateway-forwarder", "create", "other-forwarder", "precompile-direct"}[x.Target%8]
 	if x.Target == ethTargetAssetsForwarder || x.Target == ethTargetDelegationForwarder {
-		tg += fmt.Sprintf("(mode %d,%s)", x.Mode, x.Inner)
+		tg += fmt.Sprintf("(%s,then %d,%s)", []string{"call", "staticcall", "delegatecall"}[(x.Mode>>4)%3], x.Mode&15, x.Inner)
 	}
 	if x.Target == ethTargetCreate {
 		tg += fmt.Sprintf("(mode %d)", x.Mode)
@@ -238,6 +239,23 @@ func (inv *ethInv) After(m *Machine, a *Action, o Outcome) error {
 		return violation("C19.I3.recipient", "%s: the recipient's balance went %s -> %s, expected %s (vm error %q)", a.String(), inv.pre.recipient, recipient, wantRecipient, o.Note)
 	}
 	inv.Sums++
+	// a forwarder that reaches the precompile with STATICCALL (no state change allowed) or with
+	// DELEGATECALL (the precompile then sees the forwarder's own caller, not the gateway) never
+	// changes restaking state, whatever the outcome of the transaction
+	if (x.Target == ethTargetAssetsForwarder || x.Target == ethTargetDelegationForwarder) && x.Mode>>4 != 0 {
+		inv.NonCall++
+		post := c.Snap(ctx, ethRestaking...)
+		pre := sim.Snapshot{}
+		for _, k := range ethRestaking {
+			pre[k] = inv.pre.stores[k]
+		}
+		if d := sim.Diff(pre, post); len(d) > 0 {
+			return violation("C19.I7.static-or-delegate-call-changed-restaking-state", "%s reached the precompile with %s and changed %s", a.String(), []string{"CALL", "STATICCALL", "DELEGATECALL"}[(x.Mode>>4)%3], d[0].String())
+		}
+		if mem := sim.OracleMemDump(); mem != inv.pre.mem {
+			return violation("C19.I7.static-or-delegate-call-changed-restaking-state", "%s reached the precompile with %s and changed the oracle's in-memory state", a.String(), []string{"CALL", "STATICCALL", "DELEGATECALL"}[(x.Mode>>4)%3])
+		}
+	}
 	// a failed execution changes nothing else
 	if failed {
 		if d := sim.Diff(inv.pre.stores, c.Snap(ctx, ethUntouched...)); len(d) > 0 {
